@@ -19,7 +19,7 @@ Example ex_built : exists t4 gs, from_mappings ex_input = Built (Some t4) (Some 
   /\ deltas t4 = [-62; 0; 25538; 10; 1] /\ roffs t4 = [0; 8; 0; 0; 0] /\ gida t4 = [30; 29; 28]
   /\ gs = [(65, 67, 3); (97, 97, 30); (98, 98, 29); (99, 99, 28); (40000, 40000, 2); (65533, 65534, 7);
            (65536, 65537, 100); (128512, 128512, 9); (1114111, 1114111, 10)].
-Proof. eexists. eexists. vm_compute. repeat split; reflexivity. Qed.
+Proof. eexists. eexists. split; [vm_compute; reflexivity|]. vm_compute. repeat split; reflexivity. Qed.
 
 Example ex_lookup : forall t4 gs, from_mappings ex_input = Built (Some t4) (Some gs) ->
   cmap4_map t4 98 = Some 29 /\ cmap4_map t4 100 = None /\ cmap12_map gs 1114111 = Some 10.
@@ -29,7 +29,7 @@ Proof. intros t4 gs H. vm_compute in H. inversion H; subst. vm_compute. auto. Qe
 Example f2_witness_builds : exists t4, from_mappings [(65, 40000)] = Built (Some t4) None
   /\ deltas t4 = [-25601; 1] /\ cmap4_map t4 65 = Some 40000 /\ cmap4_map t4 66 = None
   /\ charmap_map (records_of (Some t4) None) 65 = Some 40000.
-Proof. eexists. vm_compute. repeat split; reflexivity. Qed.
+Proof. eexists. split; [vm_compute; reflexivity|]. vm_compute. repeat split; reflexivity. Qed.
 Example f2_boundary : delta_i16 32767 = 32767 /\ delta_i16 32768 = -32768 /\ delta_i16 65535 = -1
                       /\ delta_i16 (-32768) = -32768 /\ delta_i16 (-32769) = 32767.
 Proof. vm_compute. auto. Qed.
@@ -53,7 +53,7 @@ Proof. intros t4 gs H. vm_compute in H. inversion H; subst. vm_compute. reflexiv
 (* with U+FFFF mapped the sentinel contributes nothing and the pair itself is enumerated *)
 Example ex_iter4_ffff : exists t4, from_mappings [(65535, 9); (65534, 8)] = Built (Some t4) None
   /\ cmap4_iter t4 = [(65534, 8); (65535, 9)] /\ sentinel_pairs (canon [(65535, 9); (65534, 8)]) = [].
-Proof. eexists. vm_compute. repeat split; reflexivity. Qed.
+Proof. eexists. split; [vm_compute; reflexivity|]. vm_compute. repeat split; reflexivity. Qed.
 
 (* a well-formed variation-selector table meets wf14; all three answers occur *)
 Definition ex_sels : list Sel :=
